@@ -34,7 +34,7 @@ def make_case(idx):
     prefix = ''.join(k for k, _ in gen.vi_program(R, R.randint(0, 3), kind) if '.' not in k and '@' not in k)
     c, cls = change_cmd(R, kind)
     moves = ''.join(gen.vi_motion(R) for _ in range(R.randint(0, 2)))
-    variant = R.choice(['dot', 'dot', 'ndot', 'ndot', 'macro', 'macro2', 'bigdot', 'longmacro', 'junk', 'emptydel', 'faildot'])
+    variant = R.choice(['dot', 'dot', 'ndot', 'ndot', 'macro', 'macro2', 'bigdot', 'longmacro', 'junk', 'emptydel', 'faildot', 'bigmacro', 'dotreg'])
     regfile = rfile = None
     if variant == 'longmacro':
         # a long register whose last key is '.', repeating a long insert: each fits the 4 KiB input queue, and the
@@ -65,7 +65,19 @@ def make_case(idx):
         a = prefix + c0 + goto + c + later + R.choice(['.', '2.'])
         b = prefix + c0 + goto + c + later + (c if a.endswith(later + '.') else c * 2)
         cls = 'simple'
-    if variant == 'faildot':
+    if variant == 'bigmacro':
+        # N@r with N times the register far beyond the 4 KiB input queue: still N executions, one after the other
+        body = c + moves
+        N = R.choice([100, 120, 300, 4200 // max(1, len(body.encode()) + 1) + R.choice([0, 1, 5])])
+        N = max(2, min(N, 600))
+        regfile = ('rs r\n' + body + '\n.\n').encode()
+        a = prefix + '%d@r' % N
+        b = prefix + (body + '\n') * N
+    elif variant == 'dotreg':
+        # register "." is a register like any other for :y; what "." repeats is the last change, not what somebody stored there
+        a = prefix + c1 + moves + ':2y .\n' + '.'
+        b = prefix + c1 + moves + ':2y .\n' + c
+    elif variant == 'faildot':
         # a '.' that has nothing to repeat, or whose repeated command fails, leaves no trace: the next change is recorded as usual
         X = R.choice(['.', '..', 'GJ.1G', '"zp.', '.GJ.', '3.'])
         a = X + prefix + c1 + moves + '.'
@@ -135,9 +147,9 @@ def run_case(args):
         # run B reached the final :w, run A (same keys but for the repeat) did not: the repeat left the editor in another state
         return ('repeat:%s' % case['variant'], 'variant %s, change %r: run A never executed the final :w (run B did)' % (case['variant'], case['c'][:80]), wit, case)
     orig = gen.buf_bytes(case['lines'])
-    if case['variant'] in ('dot', 'ndot', 'bigdot', 'macro2', 'junk') and not (da == db == case['c'].encode()):
+    if case['variant'] in ('dot', 'ndot', 'bigdot', 'macro2', 'junk', 'dotreg', 'faildot') and not (da == db == case['c'].encode()):
         return ('ok-trivial', None, None, case)      # the first c was not taken as one command (failed motion: the rest of its keys ran on their own)
-    if case['variant'] != 'macro':
+    if case['variant'] not in ('macro', 'bigmacro'):
         # the change must have been taken as ONE repeatable command: register '.' (revealed at the end of run B) holds exactly its keys
         parts = ob.split(DOTSENT + b'\n')
         dot = parts[1][:-1] if len(parts) >= 3 else None
@@ -174,7 +186,7 @@ def run(tier, V):
             V.violation(key, what, wit)
     cov = {'evaluations': 2 * n, 'distinct_nontrivial': stats.get('ok', 0), 'pairs': n, 'outcomes': stats, 'nontrivial_by_variant_and_class': classes,
            'rule': ('%d pairs of executions: A = prefix, change c, moves, then "." / "N." / "@r" ; B = the same with the keys of c retyped (N times / the register\'s contents typed).  c ranges over the change commands of the vi grammar '
-                    '(operators x motions, counts, register prefixes, inserts with multi-byte text and editing keys, puts, joins, replace, case, shifts, filters that prompt); N in {2,3,5} and large N around the 4 KiB input queue; long registers ending in "." after long inserts; an operator plus non-motion key between the change and "."; deletes typed where they have nothing to delete and repeated where they have; a "." with nothing to repeat before the change; registers with several '
+                    '(operators x motions, counts, register prefixes, inserts with multi-byte text and editing keys, puts, joins, replace, case, shifts, filters that prompt); N in {2,3,5} and large N around the 4 KiB input queue; long registers ending in "." after long inserts; an operator plus non-motion key between the change and "."; deletes typed where they have nothing to delete and repeated where they have; a "." with nothing to repeat before the change; N@r far beyond the queue; register "." overwritten by :y before "."; registers with several '
                     'commands and registers that contain "." themselves.  compared: written file incl. a cursor marker and registers a, b, 1, 2, unnamed put at the end.  non-trivial = the text changed.' % n),
            'samples': [{'variant': c['variant'], 'A': common.show(c['a'], 80), 'B': common.show(c['b'], 80)} for _, _, _, c in res[:4]]}
     assumptions = ['equality of two executions of the same binary is the oracle; both runs share all defects that do not involve repetition',
